@@ -72,7 +72,7 @@ Inf == 1000000
 (*            rc    "ok" | "nx" | "fail" (FORMERR/SERVFAIL/NOTIMP/REFUSED) | "unk"      *)
 (*            body  "ok" | "badq" (question section cut) | "badans" (cut after the     *)
 (*                  listed answers) | "badauth" (authority section cut)                *)
-(*            ans   Seq of [t \in {"A","AAAA","CNAME"}, ttl, ip]                        *)
+(*            ans   Seq of [t \in {"A","AAAA","CNAME","TXT"}, ttl, ip] (TXT: + n bytes)       *)
 (*            soa   TTL of the SOA record in the authority section, or NoSoa           *)
 
 Min(x, y) == IF x < y THEN x ELSE y
@@ -277,7 +277,8 @@ TcpEof(p) ==
     /\ EndTcp(p, lk[p], TRUE, "TcpEof", "")
 
 \* how: "len1" (one byte of the length field), "msg" (length, then part of the message),
-\*      "zero" (length field 0)
+\*      "zero" (length field 0), "big" (a complete frame of 2000 bytes of noise: longer than any
+\*      UDP response the resolver advertises room for)
 TcpCut(p, how) ==
     /\ lk[p].ph = "tcp" /\ ~TimerDue
     /\ UNCHANGED <<now, late, nadv, nlook>>
@@ -308,7 +309,7 @@ Next ==
     \/ \E p \in Procs, m \in Msgs : UdpRecv(p, m) \/ TcpRecv(p, m)
     \/ \E p \in Procs : UdpTimeout(p) \/ TcpTimeout(p) \/ TcpEof(p) \/ Cancel(p)
     \/ \E p \in Procs, res \in {"ok", "err"} : TcpDial(p, res)
-    \/ \E p \in Procs, how \in {"len1", "msg", "zero"} : TcpCut(p, how)
+    \/ \E p \in Procs, how \in {"len1", "msg", "zero", "big"} : TcpCut(p, how)
     \/ \E d \in Deltas : Advance(d)
 
 Spec == Init /\ [][Next]_vars
